@@ -376,3 +376,172 @@ P('fam_free_ident_run', ['relation child(i32, i32)', 'relation root_children(usi
    'root_children(c) <-- agg c = count() in child(root, _)',
    'below(x) <-- child(r, x), if *r == root',
    'lonely(x) <-- child(_, x), !child(root, x)'], macro='ascent_run', params='input: &[(i32, i32)], root: i32', tags=['family', 'agg', 'neg', 'free_ident', 'run'])
+
+
+# ================================================================ pseudo-random well-formed programs (fixed seeds: the family is
+# deterministic). Layered relations so that negation / aggregation only look at lower layers; every other choice - arities, clause
+# order, variable sharing, constants, expressions over bound variables, wildcards, repeated variables, attached vs stand-alone
+# conditions, let / for items, one or two heads, recursion through one or several clauses - is drawn at random. The translation
+# validation (R1-R5), the version cover (R2) and all G-rules run over them like over the hand-written programs.
+class _Rng:
+    def __init__(self, seed):
+        self.s = seed * 2654435761 % (1 << 32) or 1
+
+    def n(self, k):
+        self.s = (self.s * 1103515245 + 12345) % (1 << 31)
+        return (self.s >> 8) % k
+
+    def pick(self, xs):
+        return xs[self.n(len(xs))]
+
+    def chance(self, num, den):
+        return self.n(den) < num
+
+
+def _rand_program(seed, with_opt=False):
+    g = _Rng(seed)
+    n_base = 2 + g.n(2)
+    n_layers = 2 + g.n(2)
+    rels = {}          # name -> (arity, layer)   layer 0 = base
+    for i in range(n_base):
+        rels['b%d' % i] = (1 + g.n(3), 0)
+    layers = []
+    k = 0
+    for L in range(1, n_layers + 1):
+        names = []
+        for _ in range(1 + g.n(2)):
+            nm = 'd%d' % k; k += 1
+            rels[nm] = (1 + g.n(3), L)
+            names.append(nm)
+        layers.append(names)
+    decls = ['relation %s(%s)' % (nm, ', '.join(['i32'] * ar)) for nm, (ar, _) in rels.items()]
+    if with_opt:
+        decls.append('relation o(i32, Option<i32>)')
+    rules = []
+    fresh = [0]
+
+    def newvar():
+        fresh[0] += 1
+        return 'v%d' % fresh[0]
+
+    for L, names in enumerate(layers, 1):
+        lower = [nm for nm, (_, l) in rels.items() if l < L]
+        same = names
+        for head in names:
+            har = rels[head][0]
+            n_rules = 1 + g.n(3)
+            for ri in range(n_rules):
+                fresh[0] = 0
+                refs, vals = [], []          # clause-bound (references) / let-for-bound (values)
+                items = []
+                n_cl = 1 + g.n(3)
+                recursive = ri > 0 and g.chance(2, 3)
+                used_same = False
+                for ci in range(n_cl):
+                    if recursive and (not used_same or g.chance(1, 3)):
+                        rel = g.pick(same); used_same = True
+                    else:
+                        rel = g.pick(lower)
+                    ar = rels[rel][0]
+                    args = []
+                    here = []
+                    for a in range(ar):
+                        c = g.n(10)
+                        bound = refs + vals
+                        if c < 3 and bound:
+                            v = g.pick(bound)
+                            args.append(v)
+                        elif c < 4 and here:
+                            args.append(g.pick(here))                      # repeated variable inside the clause
+                        elif c < 5:
+                            args.append(str(g.n(4)))
+                        elif c < 6 and a > 0:
+                            args.append('_')
+                        elif c < 7 and refs:
+                            args.append('%s + %d' % (g.pick(refs), 1 + g.n(2)))
+                        else:
+                            v = newvar(); args.append(v); here.append(v)
+                    txt = '%s(%s)' % (rel, ', '.join(args))
+                    new_here = [v for v in here if v not in refs]
+                    # attached condition (no comma) over variables bound so far incl. this clause
+                    avail = refs + new_here
+                    if len(avail) >= 2 and g.chance(1, 4):
+                        a1, a2 = g.pick(avail), g.pick(avail)
+                        if a1 != a2:
+                            txt += ' if %s %s %s' % (a1, g.pick(['<', '!=', '<=']), a2)
+                    items.append(txt)
+                    refs += new_here
+                    if with_opt and g.chance(1, 3):
+                        # a clause over the Option-typed relation: ?pattern argument, attached / stand-alone if-let, plain variable
+                        k0 = g.pick(refs) if refs and g.chance(2, 3) else None
+                        a0 = k0 if k0 else (newvar())
+                        form = g.n(4)
+                        if form == 3 and any('?None' in it for it in items):
+                            form = 0        # ascent takes the identifier pattern `None` for a variable: two of them in one rule are rejected as shadowing
+                        if form == 0:
+                            pv = newvar(); items.append('o(%s, ?Some(%s))' % (a0, pv)); bound_now = [pv]
+                        elif form == 1:
+                            wv, pv = newvar(), newvar(); items.append('o(%s, %s) if let Some(%s) = %s' % (a0, wv, pv, wv)); bound_now = [pv]
+                        elif form == 2:
+                            wv, pv = newvar(), newvar(); items.append('o(%s, %s)' % (a0, wv)); items.append('if let Some(%s) = %s' % (pv, wv)); bound_now = [pv]
+                        else:
+                            items.append('o(%s, ?None)' % a0); bound_now = []
+                        if not k0:
+                            refs.append(a0)
+                        refs += bound_now
+                    # stand-alone items after the clause
+                    c = g.n(12)
+                    if c == 0 and len(refs) >= 2:
+                        a1, a2 = g.pick(refs), g.pick(refs)
+                        if a1 != a2:
+                            items.append('if %s %s %s' % (a1, g.pick(['<', '!=', '>=']), a2))
+                    elif c == 1 and refs:
+                        v = newvar(); items.append('let %s = %s + %d' % (v, g.pick(refs), g.n(3))); vals.append(v)
+                    elif c == 2:
+                        v = newvar(); items.append('for %s in 0..%d' % (v, 2 + g.n(2))); vals.append(v)
+                    elif c == 3 and refs:
+                        items.append('if *%s > %d' % (g.pick(refs), g.n(3)))
+                # negation / aggregation over strictly lower relations, all key columns bound or wildcards
+                if lower and refs and g.chance(1, 3):
+                    rel = g.pick(lower); ar = rels[rel][0]
+                    if g.chance(1, 2):
+                        args = [g.pick(refs + ['_']) if g.chance(2, 3) else str(g.n(3)) for _ in range(ar)]
+                        items.append('!%s(%s)' % (rel, ', '.join(args)))
+                    else:
+                        cv = newvar()
+                        if ar >= 2 and g.chance(1, 2):
+                            yv = newvar()
+                            args = [g.pick(refs) if g.chance(1, 2) else '_' for _ in range(ar - 1)] + [yv]
+                            items.append('agg %s = %s(%s) in %s(%s)' % (cv, g.pick(['min', 'max']), yv, rel, ', '.join(args)))
+                            vals.append(cv)
+                        else:
+                            args = [g.pick(refs) if g.chance(1, 2) else '_' for _ in range(ar)]
+                            items.append('agg %s = count() in %s(%s)' % (cv, rel, ', '.join(args)))
+                            items.append('if %s > %d' % (cv, g.n(2)))
+                # heads
+                heads = []
+                for hi in range(1 + (1 if g.chance(1, 5) else 0)):
+                    hrel = head if hi == 0 else g.pick(same)
+                    hargs = []
+                    for a in range(rels[hrel][0]):
+                        c = g.n(8)
+                        if c < 5 and (refs or vals):
+                            hargs.append(g.pick(refs + vals))
+                        elif c < 6 and refs:
+                            hargs.append('%s + %d' % (g.pick(refs), g.n(3)))
+                        else:
+                            hargs.append(str(g.n(5)))
+                    heads.append('%s(%s)' % (hrel, ', '.join(hargs)))
+                rules.append('%s <-- %s' % (', '.join(heads), ', '.join(items)))
+    return decls, rules
+
+
+for _seed in range(101, 131):
+    _d, _r = _rand_program(_seed, with_opt=True)
+    P('fam_rando_%03d' % _seed, _d, _r, macro=('ascent_par' if _seed % 4 == 0 else 'ascent'), tags=['family', 'rand'])
+for _seed in range(1, 61):
+    _d, _r = _rand_program(_seed)
+    if _seed % 3 == 0:
+        P('fam_rand_%02d' % _seed, _d, _r, macro='ascent_par', tags=['family', 'rand'])
+    else:
+        P('fam_rand_%02d' % _seed, _d, _r, tags=['family', 'rand'])
